@@ -1,8 +1,22 @@
 import SkoolVerif.Model.SnapHeader
-import SkoolVerif.Spec.AluCheck
 /-! Round trips of the non-trivial snapshot header encodings (C09). -/
 namespace SnapHeader
-open PyInt AluCheck
+open PyInt
+
+/-- `p k` for all `k < n` (structural recursion: kernel-friendly). -/
+def allLt : Nat → (Nat → Bool) → Bool
+  | 0, _ => true
+  | n + 1, p => allLt n p && p n
+
+theorem allLt_spec {n : Nat} {p : Nat → Bool} (h : allLt n p = true) : ∀ k, k < n → p k = true := by
+  induction n with
+  | zero => intro k hk; omega
+  | succ n ih =>
+    simp only [allLt, Bool.and_eq_true] at h
+    intro k hk
+    by_cases hkn : k = n
+    · subst hkn; exact h.2
+    · exact ih h.1 k (by omega)
 
 theorem z80_t_48 (t : Int) : z80ReadT 69888 (z80WriteT 69888 t) = t % 69888 := by
   unfold z80ReadT z80WriteT; simp only; omega
@@ -27,9 +41,36 @@ theorem land_65535 (v : Int) (h0 : 0 ≤ v) : land v 65535 = v % 65536 := by
     have : n &&& 65535 = n % 65536 := Nat.and_two_pow_sub_one_eq_mod n 16
     omega
 
+/-- Python `v & 65535` for every integer (two's complement for negative `v`) -/
+theorem land_65535_all (v : Int) : land v 65535 = v % 65536 := by
+  cases v with
+  | ofNat n => exact land_65535 _ (Int.natCast_nonneg n)
+  | negSucc n =>
+    show land (Int.negSucc n) (Int.ofNat 65535) = _
+    simp only [land, Int.ofNat_eq_natCast]
+    have h1 : 65535 &&& n = n % 65536 := by
+      rw [Nat.and_comm]; exact Nat.and_two_pow_sub_one_eq_mod n 16
+    rw [h1, Int.negSucc_eq]
+    omega
+
 theorem word (v : Int) (h : 0 ≤ v ∧ v < 65536) : readWord (writeWord v) = v := by
   unfold readWord writeWord; simp only
   rw [land_65535 v h.1]; omega
+
+/-- for every integer the word that is stored is the value modulo 65536 -/
+theorem word_mod (v : Int) : readWord (writeWord v) = v % 65536 := by
+  unfold readWord writeWord; simp only
+  rw [land_65535_all v]; omega
+
+/-- the two writers' formulas for the high byte agree on every integer -/
+theorem word_writers_agree (v : Int) : writeWord v = szxWriteWord v := by
+  unfold writeWord szxWriteWord
+  rw [land_65535_all v]
+  congr 1
+  omega
+
+theorem szx_t4 (a b c : Int) : szxReadT4 (a, b, c, 0) = szxReadT (a, b, c) := by
+  simp [szxReadT4, szxReadT]
 
 /-- R and border share byte 12: exhaustive over both bytes -/
 theorem r_all : allLt 256 (fun h12 => allLt 256 (fun r =>
@@ -42,6 +83,19 @@ theorem border_all : allLt 256 (fun h12 => allLt 8 (fun c =>
     let w := writeBorder (h12 : Int) (c : Int)
     decide (readBorder w = (c : Int)) && decide (w % 2 = (h12 : Int) % 2) &&
       decide (land w 32 = land (h12 : Int) 32) && decide (0 ≤ w ∧ w < 256))) = true := by
+  decide +kernel
+
+/-- IM and issue-2 flag share byte 29: exhaustive over the byte and the value's low bits -/
+theorem im_all : allLt 256 (fun h29 => allLt 8 (fun v =>
+    let w := writeIm (h29 : Int) (v : Int)
+    decide (readIm w = (v : Int) % 4) && decide (readIssue2 w = readIssue2 (h29 : Int)) &&
+      decide (w / 8 = (h29 : Int) / 8) && decide (0 ≤ w ∧ w < 256))) = true := by
+  decide +kernel
+
+theorem issue2_all : allLt 256 (fun h29 => allLt 8 (fun v =>
+    let w := writeIssue2 (h29 : Int) (v : Int)
+    decide (readIssue2 w = (v : Int) % 2) && decide (readIm w = readIm (h29 : Int)) &&
+      decide (w / 8 = (h29 : Int) / 8) && decide (0 ≤ w ∧ w < 256))) = true := by
   decide +kernel
 
 end SnapHeader
